@@ -71,7 +71,7 @@ func (r Int) MAX(a, b Int) Scalar {
 func (c Int) ABS(a Int) Scalar {
   switch a.Sign() {
   case -1: c.NEG(a)
-  case 0: c.Reset()
+  case 0: c.SetFloat64(math.Abs(a.GetFloat64()))
   case 1: c.SET(a)
   }
   return c
